@@ -20,6 +20,7 @@
 """
 from __future__ import annotations
 
+import functools
 import struct
 import uuid
 
@@ -56,6 +57,7 @@ for _i in range(256):
     _crc_table.append(_c)
 
 
+@functools.lru_cache(maxsize=256)
 def crc32c(data: bytes) -> int:
     c = 0xFFFFFFFF
     for b in data:
@@ -198,11 +200,19 @@ def build(states, slots, block_size=MB, sector=512, size=None, layer=1, seqs=(7,
                 img.put_pattern(off, block_size, layer, blk * block_size)
             else:
                 bm = bitmaps[blk]
-                # present sectors hold this layer's pattern, absent ones hold slack (must never be returned)
+                # present sectors hold this layer's pattern, absent ones hold slack (must never be returned); slack is
+                # materialised only within 16 sectors of a present sector / the block edges (the rest stays sparse)
+                ones = [i for i, b in enumerate(bm) if b]
+                near = set()
+                for lo_, hi_ in ([(min(ones) - 16, max(ones) + 16)] if ones else []) + [(0, 16), (spb - 16, spb)]:
+                    near.update(range(max(0, lo_), min(spb, hi_ + 1)))
                 s = 0
                 while s < spb:
+                    if not bm[s] and s not in near:
+                        s += 1
+                        continue
                     e = s
-                    while e < spb and bm[e] == bm[s]:
+                    while e < spb and bm[e] == bm[s] and (bm[s] or e in near):
                         e += 1
                     if bm[s]:
                         img.put_pattern(off + s * sector, (e - s) * sector, layer, blk * block_size + s * sector)
@@ -214,17 +224,19 @@ def build(states, slots, block_size=MB, sector=512, size=None, layer=1, seqs=(7,
     # sector bitmap blocks
     for ch, mb in sb_blocks.items():
         buf = bytearray(MB)
+        first = last = None
         for blk, bm in bitmaps.items():
             if blk // ratio != ch:
                 continue
             base = (blk % ratio) * spb
             for s, bit in enumerate(bm):
                 if bit:
-                    buf[(base + s) // 8] |= 1 << ((base + s) % 8)
-        # materialise only non-zero stretches
-        first = next((i for i, b in enumerate(buf) if b), None)
+                    pos = (base + s) // 8
+                    buf[pos] |= 1 << ((base + s) % 8)
+                    first = pos if first is None or pos < first else first
+                    last = pos if last is None or pos > last else last
+        # materialise only the non-zero stretch
         if first is not None:
-            last = max(i for i, b in enumerate(buf) if b)
             img.put(mb * MB + first, bytes(buf[first:last + 1]))
         img.set_size((mb + 1) * MB)
     img.set_size(end_mb * MB)
